@@ -15,15 +15,23 @@ MAX_PATHS = int(os.environ.get("PYVC_MAX_PATHS", "600"))
 
 
 class VC:
-    __slots__ = ("name", "kind", "label", "tags", "smt2", "loc", "path", "fnqual", "text", "digest", "status", "reason",
-                 "model", "seconds", "backend", "site")
+    __slots__ = ("name", "kind", "label", "tags", "loc", "path", "fnqual", "text", "digest", "status", "reason",
+                 "model", "seconds", "backend", "site", "group", "slot", "_pc", "_extra", "_goal")
 
-    def __init__(self, ob, smt2):
+    def __init__(self, ob, smt2=None, pc=None, extra=None, goal=None):
         self.name, self.kind, self.label, self.tags = ob.name, ob.kind, ob.label, sorted(ob.tags)
-        self.smt2 = smt2
+        self._pc, self._extra, self._goal = pc, extra, goal
+        self.group = self.slot = None
         self.loc, self.path, self.fnqual, self.text, self.site = ob.loc, ob.path, ob.fnqual, ob.text, ob.site
-        self.digest = hashlib.sha1(smt2.encode()).hexdigest()
+        self.digest = None
         self.status = None
+
+    @property
+    def smt2(self):
+        """stand-alone SMT-LIB text of this VC (debugging / replay files)"""
+        return to_smt2(list(self._pc) + list(self._extra), self._goal)
+
+
         self.reason = ""
         self.model = None
         self.seconds = 0.0
@@ -92,6 +100,10 @@ def split_goal(goal, hyps=None, out=None, budget=None):
         return out
     out.append((hyps, g))
     return out
+
+
+def _has_skolem(extra, leaf):
+    return False
 
 
 def cover_smt2(pc):
@@ -279,14 +291,17 @@ def verify_function(qual):
                 entry_cover_done = True
             out.covers.append((f"{qual}::cover::path{out.paths}:{r['kind']}", cover_smt2(ex.pc)))
             for ob in ex.obls:
+                pcids = tuple(t.get_id() for t in ob.pc)
                 for extra, leaf in split_goal(ob.goal):
-                    s2 = to_smt2(list(ob.pc) + extra, leaf)
-                    vc = VC(ob, s2)
-                    key = (vc.name, vc.digest)
-                    if key in seen:
+                    key = (ob.name, pcids, tuple(t.get_id() for t in extra), leaf.get_id()) if not _has_skolem(extra, leaf) else None
+                    if key is not None and key in seen:
                         continue
-                    seen[key] = vc
+                    vc = VC(ob, pc=ob.pc, extra=extra, goal=leaf)
+                    vc.digest = hashlib.sha1(repr((ob.name, pcids, leaf.get_id(), len(extra))).encode()).hexdigest()
+                    if key is not None:
+                        seen[key] = vc
                     out.vcs.append(vc)
+            out._keep = getattr(out, "_keep", []) + [ex]      # keep the terms alive (ast ids are reused otherwise)
     except Exception as e:        # internal error: never a violation
         out.error = f"internal error in pyvc: {type(e).__name__}: {e}\n{traceback.format_exc(limit=8)}"
         out.internal = True
@@ -297,8 +312,8 @@ def verify_function(qual):
 # ---------------------------------------------------------------------------------------------
 # solver pool
 def _solve(args):
-    kind, name, text, rlimit, timeout_ms = args
-    t0 = time.time()
+    kind, name, text, rlimit, timeout_ms, slots = args
+    out = []
     try:
         ctx = z3.Context()
         s = z3.Solver(ctx=ctx)
@@ -307,30 +322,37 @@ def _solve(args):
         s.set("rlimit", rlimit)
         s.set("timeout", timeout_ms)
         s.from_string(text)
-        r = s.check()
-        dt = time.time() - t0
-        rl = 0
-        try:
-            st_ = s.statistics()
-            for k_ in st_.keys():
-                if k_ == "rlimit count":
-                    rl = st_.get_key_value(k_)
-        except Exception:
-            pass
-        if r == z3.unsat:
-            return (name, "unsat", f"rlimit={rl}", None, dt)
-        if r == z3.sat:
-            return (name, "sat", "", _model_text(s), dt)
-        reason = s.reason_unknown()
-        model = None
-        if "incomplete" in reason:
-            try:
-                model = _model_text(s)
-            except Exception:
-                model = None
-        return (name, "unknown", reason, model, dt)
     except Exception as e:
-        return (name, "error", f"{type(e).__name__}: {e}", None, time.time() - t0)
+        return [(name, k, "error", f"{type(e).__name__}: {e}", None, 0.0) for k in (slots or [None])]
+    for k in (slots if slots is not None else [None]):
+        t0 = time.time()
+        try:
+            r = s.check(z3.Bool(k, ctx)) if k is not None else s.check()
+            dt = time.time() - t0
+            rl = 0
+            try:
+                st_ = s.statistics()
+                for k_ in st_.keys():
+                    if k_ == "rlimit count":
+                        rl = st_.get_key_value(k_)
+            except Exception:
+                pass
+            if r == z3.unsat:
+                out.append((name, k, "unsat", f"rlimit={rl}", None, dt))
+            elif r == z3.sat:
+                out.append((name, k, "sat", "", _model_text(s), dt))
+            else:
+                reason = s.reason_unknown()
+                model = None
+                if "incomplete" in reason:
+                    try:
+                        model = _model_text(s)
+                    except Exception:
+                        model = None
+                out.append((name, k, "unknown", reason, model, dt))
+        except Exception as e:
+            out.append((name, k, "error", f"{type(e).__name__}: {e}", None, time.time() - t0))
+    return out
 
 
 def _model_text(s, limit=6000):
@@ -341,7 +363,7 @@ def _model_text(s, limit=6000):
     rows = []
     for d in m.decls():
         nm = d.name()
-        if nm.startswith("k!") or "?" in nm:
+        if nm.startswith("k!") or "?" in nm or nm.startswith("__g"):
             continue
         try:
             rows.append(f"{nm} = {m[d]}")
@@ -352,39 +374,67 @@ def _model_text(s, limit=6000):
     return txt[:limit]
 
 
+GROUP_MAX = 10
+
+
 def discharge(vcs, covers, tier="quick", procs=None):
-    """run every VC and cover; returns (vc results in place, cover results)"""
-    rlimit = 400_000_000 if tier == "quick" else 1_600_000_000
-    timeout = 240_000 if tier == "quick" else 900_000
-    jobs = [("vc", i, vc.smt2, rlimit, timeout) for i, vc in enumerate(vcs)]
-    jobs += [("cover", f"c{i}", text, rlimit // 4, 20_000) for i, (nm, text) in enumerate(covers)]
+    """run every VC and cover; VCs that share their hypotheses are solved incrementally in one solver
+    (guard literals + check-sat-assuming)"""
+    rlimit = 120_000_000 if tier == "quick" else 1_200_000_000
+    timeout = 120_000 if tier == "quick" else 900_000
+    groups = {}
+    for i, vc in enumerate(vcs):
+        key = tuple(t.get_id() for t in vc._pc)
+        groups.setdefault(key, []).append(i)
+    jobs = []
+    for key, idxs in groups.items():
+        for c in range(0, len(idxs), GROUP_MAX):
+            chunk = idxs[c:c + GROUP_MAX]
+            sv = z3.Solver()
+            for p in vcs[chunk[0]]._pc:
+                sv.add(p)
+            slots = []
+            for n_, i in enumerate(chunk):
+                g = z3.Bool(f"__g{n_}")
+                vc = vcs[i]
+                sv.add(z3.Implies(g, z3.And(list(vc._extra) + [z3.Not(vc._goal)])))
+                slots.append(f"__g{n_}")
+                vc.group, vc.slot = len(jobs), f"__g{n_}"
+            jobs.append(("vc", tuple(chunk), sv.to_smt2(), rlimit, timeout, slots))
+    for i, (nm, text) in enumerate(covers):
+        jobs.append(("cover", f"c{i}", text, rlimit // 8, 20_000, None))
     procs = procs or min(16, os.cpu_count() or 4)
     cover_res = {}
     if not jobs:
         return cover_res
+    # longest groups first
+    order = sorted(range(len(jobs)), key=lambda j: -len(jobs[j][5] or [1]))
     if len(jobs) <= 2 or procs == 1:
-        results = [_solve(j) for j in jobs]
+        results = {j: _solve(jobs[j]) for j in order}
     else:
         with mp.get_context("fork").Pool(procs) as pool:
-            results = pool.map(_solve, jobs, chunksize=1)
-    for (kind, key, _, _, _), (name, st, reason, model, dt) in zip(jobs, results):
-        if kind == "vc":
-            vc = vcs[key]
-            vc.seconds = dt
-            vc.backend = "z3-" + z3.get_version_string()
-            vc.reason = reason
-            vc.model = model
-            if st == "unsat":
-                vc.status = "discharged"
-            elif st == "sat":
-                vc.status = "failed"
-            elif st == "unknown" and "incomplete" in reason:
-                vc.status = "failed"          # Boogie convention: not provable; candidate model attached
-            elif st == "error":
-                vc.status = "error"
+            res = pool.map(_solve, [jobs[j] for j in order], chunksize=1)
+        results = dict(zip(order, res))
+    for j, job in enumerate(jobs):
+        kind, key = job[0], job[1]
+        for n_, (name, slot, st, reason, model, dt) in enumerate(results[j]):
+            if kind == "vc":
+                vc = vcs[key[n_]]
+                vc.seconds = dt
+                vc.backend = "z3-" + z3.get_version_string()
+                vc.reason = reason
+                vc.model = model
+                if st == "unsat":
+                    vc.status = "discharged"
+                elif st == "sat":
+                    vc.status = "failed"
+                elif st == "unknown" and "incomplete" in reason:
+                    vc.status = "failed"          # Boogie convention: not provable; candidate model attached
+                elif st == "error":
+                    vc.status = "error"
+                else:
+                    vc.status = "undecided"       # resource limit / timeout: never a violation by itself
             else:
-                vc.status = "undecided"       # resource limit / timeout: never a violation
-        else:
-            i = int(key[1:])
-            cover_res[covers[i][0]] = (st, reason)
+                i = int(key[1:])
+                cover_res[covers[i][0]] = (st, reason)
     return cover_res
